@@ -162,7 +162,8 @@ fn validate_arearef(arearefstr: &str, orig: &str) -> Option<f32> {
         );
         exit(exitcode::DATAERR);
     });
-    if arearef <= 1e-3 {
+    // NaN no cumple ninguna comparación: se rechaza expresamente
+    if arearef.is_nan() || arearef <= 1e-3 {
         eprintln!(
             "ERROR: área de referencia A_ref fuera de rango [0.001-]: {:.2} ({})",
             arearef, orig
